@@ -195,7 +195,8 @@ Theorem check_table_sound col maxc maxr ops lines : check (ITable col maxc maxr 
        exists pre rest, nth i lines [] = pre ++ rest /\ str_len col pre = offset W j /\
                         rest = render_row col (skipn j W) (skipn j cells)).
 Proof.
-  cbn [check]. intros H W i cells Hs.
+  cbn [check]. intros H. cbv zeta. intros i cells Hs.
+  set (W := spec_widths col maxc maxr ops) in *.
   (* the line *)
   assert (G : forall rows k, rows_ok col W k rows lines = true ->
               forall i0 cs, nth_error rows i0 = Some (Some cs) -> nth (k + i0) lines [] = render_row col W cs).
@@ -255,7 +256,7 @@ Proof.
     destruct (drop_sp_spec (SP :: rest')) as [pad [Ep [Fp Gp]]].
     exists pad, (drop_sp (SP :: rest')). split. rewrite E, Ep at 1. reflexivity.
     split.
-    + intro. subst pad. simpl in Ep. rewrite <- Ep in Gp. apply Gp. reflexivity.
+    + intro. subst pad. change (SP :: rest' = drop_sp (SP :: rest')) in Ep. rewrite <- Ep in Gp. apply Gp. reflexivity.
     + split. assumption. split. assumption. assumption.
   - intros Hlt. apply Nat.ltb_lt in Hlt. rewrite Hlt in H2. apply str_eqb_eq in H2. rewrite H2.
     f_equal. unfold lenZ. apply Nat.ltb_lt in Hlt. lia.
@@ -274,7 +275,7 @@ Theorem check_spark_sound c rlim clim a lines : spark_chk c rlim clim a lines = 
      count_in (spark_alpha c) (nth (S j) lines []) =
        (count_in (spark_alpha c) (name_cell c r) +
         count_in (spark_alpha c) (match vals with [] => [] | v :: _ => fmt_of (c_fk c) v end) +
-        count_in (spark_alpha c) (match vals with [] => [] | _ => fmt_of (c_fk c) (last vals 0) end) + k)%nat) /\
+        count_in (spark_alpha c) (match vals with [] => [] | _ => fmt_of (c_fk c) (last vals 0%Z) end) + k)%nat) /\
   ((rc < length (a_rows a))%nat -> In (more_txt (Z.of_nat (length (a_rows a) - rc))) lines).
 Proof.
   unfold spark_chk. cbv zeta. intros H. apply andb_prop in H as [H1 H2]. split.
